@@ -56,7 +56,7 @@ func (C20) Runs(tier string) int {
 func (C20) Meta() core.Meta {
 	return core.Meta{
 		Level: "exploration",
-		Rule: "sched case = 2..8 tasks (Encrypt or Decrypt, own plaintext/tape/destination/source) sharing ONE recipient and ONE identity object per key; exactly one task runs at a time and every seam call (rand.Read before and after the draw, dst.Write, src.Read) is a yield at which the plan's PRNG-chosen schedule decides who continues; oracle: each task's output bytes / plaintext equal what the same task yields alone with fresh objects. sched-fine case = the same with 2..4 tasks in a binary built from a scratch copy of the tree in which cmd/astyield inserted a yield before every statement of age.go, primitives.go, x25519.go, scrypt.go, agessh/agessh.go, internal/stream, internal/format and armor (718 points): statement-granular, still replayable schedules. race case = 2..32 free-running goroutines (GOMAXPROCS 2/4/16, start barrier, Gosched perturbation from the plan) doing Encrypt+Decrypt over the same shared objects in a -race build; any race report is a violation, results must round-trip. Non-trivial = at least one task switch between two tasks using the same key object; distinct = distinct task-switch sequences (sched) / distinct (goroutines, procs, seed) (race).",
+		Rule: "sched case = 2..8 tasks (Encrypt or Decrypt, own plaintext/tape/destination/source) sharing ONE recipient and ONE identity object per key; exactly one task runs at a time and every seam call (rand.Read before and after the draw, dst.Write, src.Read) is a yield at which the plan's PRNG-chosen schedule decides who continues; oracle: each task's output bytes / plaintext equal what the same task yields alone with fresh objects, and afterwards every decrypt task repeated alone with the SHARED objects still gives that result (nothing left behind). sched-fine case = the same with 2..4 tasks in a binary built from a scratch copy of the tree in which cmd/astyield inserted a yield before every statement of age.go, primitives.go, x25519.go, scrypt.go, agessh/agessh.go, internal/stream, internal/format and armor (718 points): statement-granular, still replayable schedules. race case = 2..32 free-running goroutines (GOMAXPROCS 2/4/16, start barrier, Gosched perturbation from the plan) doing Encrypt+Decrypt over the same shared objects in a -race build; any race report is a violation, results must round-trip. Non-trivial = at least one task switch between two tasks using the same key object; distinct = distinct task-switch sequences (sched) / distinct (goroutines, procs, seed) (race).",
 		Assumptions: []string{"sched stage: code between two seam calls runs atomically; the sched-fine stage removes that limit for the library's own statements (not for the standard library or x/crypto below them)", "the sched-fine stage runs the library with inserted yield calls: the rewritten copy is checked to build, and its outputs are compared with runs of the same binary alone", "race stage is NOT schedule-controlled (it is the detector the property names); its replay re-runs the workload and is not exactly repeatable", "the race detector reports no false positives"},
 		Real:        []string{"filippo.io/age Encrypt/Decrypt", "X25519/scrypt/ssh-ed25519/ssh-rsa recipients and identities shared between tasks", "internal/stream"},
 		Stub:        []string{"task scheduler (baton passing)", "per-task tape behind one routed crypto/rand.Reader", "per-task destination and source"},
@@ -427,6 +427,19 @@ func (e C20) Execute(plan interface{}, c *core.Ctx) *core.Verdict {
 	}
 	c.Log.Add("schedule trace: %v", s.trace)
 	c.Stats.Eval(fmt.Sprintf("%s|%v", p.Mode, s.trace), switches > 0 && shared > 0)
+	// aftermath: the shared objects, used once more one after the other, must still behave like fresh ones
+	// (state left behind by overlapping calls, e.g. a torn cache entry, shows here)
+	for i, t := range p.Tasks {
+		if t.Op != "dec" {
+			continue
+		}
+		ks := t.File.Keys()
+		k := ks[t.IdKey%len(ks)]
+		res := lib.Decrypt(seam.NewSource(inputs[i], seam.Delivery{Mode: "whole"}, nil, nil).Reader(), t.File.Armor, []age.Identity{so.identity(k)}, lib.ReadSched{Mode: "all"}, nil)
+		if res.ErrText() != alone[i].err || !bytes.Equal(res.Released, alone[i].out) {
+			return core.Fail("C20.state_left_behind", "after the concurrent phase, task %d's file decrypted once more with the shared %s identity gives %d bytes/%s, alone it gives %d bytes/%s: overlapping calls left state behind in the shared object", i, k, len(res.Released), res.ErrText(), len(alone[i].out), alone[i].err)
+		}
+	}
 	for i := range p.Tasks {
 		if together[i].err != alone[i].err || !bytes.Equal(together[i].out, alone[i].out) {
 			return core.Fail("C20.result_differs", "task %d (%s %s) run concurrently with %d others sharing key objects (task order %v) gives a different result than alone: %d bytes/%s vs %d bytes/%s, first difference at byte %d",
@@ -514,6 +527,8 @@ func (e C20) execRaceOnce(p *C20Plan, c *core.Ctx) *core.Verdict {
 	var wg sync.WaitGroup
 	start := make(chan struct{})
 	errs := make([]string, len(p.Tasks))
+	lastFile := make([][]byte, len(p.Tasks))
+	lastKey := make([]world.Key, len(p.Tasks))
 	for i := range p.Tasks {
 		i := i
 		t := p.Tasks[i]
@@ -548,6 +563,8 @@ func (e C20) execRaceOnce(p *C20Plan, c *core.Ctx) *core.Verdict {
 				if g.Chance(1, 2) {
 					runtime.Gosched()
 				}
+				lastFile[i] = append([]byte(nil), buf.Bytes()...)
+				lastKey[i] = k
 				r, err := age.Decrypt(&buf, so.identity(k))
 				if err != nil {
 					errs[i] = "Decrypt: " + err.Error()
@@ -570,6 +587,22 @@ func (e C20) execRaceOnce(p *C20Plan, c *core.Ctx) *core.Verdict {
 	for i, e := range errs {
 		if e != "" {
 			return core.Fail("C20.concurrent_result", "goroutine %d of %d sharing key objects: %s", i, len(p.Tasks), e)
+		}
+	}
+	// aftermath, sequentially: every file of the concurrent phase once more with the shared identities
+	for round := 0; round < 2; round++ {
+		for i, f := range lastFile {
+			if f == nil {
+				continue
+			}
+			r, err := age.Decrypt(bytes.NewReader(f), so.identity(lastKey[i]))
+			if err != nil {
+				return core.Fail("C20.state_left_behind", "after the concurrent phase, the file of goroutine %d decrypted alone with the shared %s identity fails: %v (overlapping calls left state behind)", i, lastKey[i], err)
+			}
+			got, err := io.ReadAll(r)
+			if err != nil || !bytes.Equal(got, p.Tasks[i].File.Plain()) {
+				return core.Fail("C20.state_left_behind", "after the concurrent phase, the file of goroutine %d decrypts differently with the shared identity: %v", i, err)
+			}
 		}
 	}
 	if after := raceLogSize(); after > before {
